@@ -90,11 +90,12 @@ def mw_dispatch(pol="block"):
 
 
 def subs_direct(tier):
-    rs = {"r1": {0: red("D"), 1: red("K", eff("task"))}}       # Keep with an effect must still not notify
+    # Keep with an effect must still not notify; two reducers: subscribers see the state after the whole chain
+    rs = {"r1": {0: red("D"), 1: red("K", eff("task"))}, "r2": {0: red("D"), 1: red("K")}}
     progs = [{"c1": [S("add_sub", "s1"), S("add_sub", "s2"), D(1), D(2), D(3)] + STOP,
               "c2": [D(4, "trait")] if tier == "quick" else [D(4, "trait"), D(5, "trait")]}]
     acts = {1: 0, 2: 1, 3: 0, 4: 0, 5: 1}
-    return _i("subs", progs, acts, cap=2, red_script=rs, max_tasks=2,
+    return _i("subs", progs, acts, cap=2, red_script=rs, max_tasks=2, reducers=("r1", "r2"),
               subs={"s1": {"kind": "direct"}, "s2": {"kind": "direct"}})
 
 
